@@ -379,10 +379,41 @@ class Body:
         l = p['l']
         names = self.locals[l]['names']
         if p['pr'][0] == '*':
-            base = self.local_term(l)
+            base = self._referent(l)
         else:
             base = ('v', names[0], l) if names else ('t', l)
-        return self.project(base, p['pr'])
+        return self.project(base, p['pr'], resolve_refs=True)
+
+    def _referent(self, l, depth=0):
+        """the memory a reference-typed local points to: a named `let r = &mut self.x;` is the place self.x when it is the only
+        definition of r (a store through *r is a store to self.x)"""
+        base = self.local_term(l)
+        if depth > 4 or not (isinstance(base, tuple) and base[0] == 'v' and base[2] == l and not (1 <= l <= self.j['arg_count'])):
+            return base
+        if not str(self.locals[l]['ty']).startswith('&'):
+            return base
+        ds = self.defs().get(l, [])
+        if len(ds) != 1:
+            return base
+        st = ds[0][3] if len(ds[0]) > 3 else None
+        if not isinstance(st, dict) or st.get('k') != 'assign':
+            return base
+        r = st['r']
+        if r.get('k') == 'ref':
+            q = r['p']
+            if q['pr'] and q['pr'][0] == '*':
+                return self.project(self._referent(q['l'], depth + 1), q['pr'])
+            return self.place_term(q)
+        if r.get('k') == 'use' and r['a'].get('k') in ('copy', 'move'):
+            if not r['a']['p']['pr']:
+                return self._referent(r['a']['p']['l'], depth + 1)
+            # e.g. `let (a, b) = (&mut self.x, &mut self.y);`: the component of a locally built tuple
+            t = self.place_term(r['a']['p'])
+            if isinstance(t, tuple) and t[0] == 'v' and isinstance(t[2], int) and t[2] != l:
+                return self._referent(t[2], depth + 1)
+            if isinstance(t, tuple) and t[0] in ('f', 'idx', 'v'):
+                return t
+        return base
 
     def field_stores(self):
         """[(block, idx, target_term, value_term_or_None, stmt)] for every store through a projection."""
@@ -403,10 +434,12 @@ class Body:
         base = self.local_term(p['l'], depth, at, expand)
         return self.project(base, p['pr'], depth, at, expand)
 
-    def project(self, base, prs, depth=0, at=None, expand=False):
+    def project(self, base, prs, depth=0, at=None, expand=False, resolve_refs=False):
         t = base
         for pr in prs:
             if pr == '*':
+                if isinstance(t, tuple) and t[0] == 'v' and isinstance(t[2], int):
+                    t = self._referent(t[2])
                 continue
             if 'f' in pr:
                 f = pr['f']
